@@ -22,8 +22,9 @@ def main(props):
         for it in items:
             it.setdefault("status", "open")
             it.setdefault("property", p)
-            if not it["line"].startswith(f"KNOWN-FINDING: property={it['property']} "):
-                raise SystemExit(f"{it['key']}: malformed line")
+            want = "fixed: property=" if it["status"] == "fixed" else "KNOWN-FINDING: property="
+            if not it["line"].startswith(f"{want}{it['property']} "):
+                raise SystemExit(f"{it['key']}: malformed line {it['line'][:60]!r}")
             if it["key"] in have:
                 data["findings"][have[it["key"]]] = it
             else:
